@@ -11,7 +11,7 @@ def s1(test, qchecks, tchecks, qshards=4, tshards=16, timeout_q=240, timeout_t=1
 
 TESTS = {
     "C01": [s1("TestC01_S1Conformance", 20000, 250000)],
-    "C02": [s1("TestC02_Linearizable", 150, 3000, timeout_t=2400)],
+    "C02": [s1("TestC02_Linearizable", 200, 10000, timeout_t=3000)],
     "C03": [s1("TestC03_S1Visibility", 20000, 250000), s1("TestC03_S4Phases", 150, 3000, timeout_t=2400)],
     "C04": [s1("TestC04_S1Bound", 15000, 200000), s1("TestC04_S1Burst", 600, 10000), s1("TestC04_S3Bound", 2500, 60000, timeout_t=2400), s1("TestC04_S4Bound", 150, 3000, timeout_t=2400)],
     "C05": [s1("TestC05_S1Bookkeeping", 15000, 200000), s1("TestC05_S1Burst", 600, 10000), s1("TestC05_S3Bookkeeping", 2500, 60000, timeout_t=2400), s1("TestC05_S4Bookkeeping", 150, 3000, timeout_t=2400)],
